@@ -1,5 +1,6 @@
 """C10 -- nested validation is compositional and inherits the configuration."""
 import json
+import common
 import random
 import oracles
 import vrun
@@ -56,6 +57,38 @@ def extra(ctx, res):
             res["violations"].append({"signature": "root-relative", "what": d, "replay": dict(case, config={"d": []}, update=False)})
     res["samples"].append(case)
     res["nontrivial"] += n
+    # directed family: a sub-document key named 'dependencies' below a field that has a `dependencies` rule followed by
+    # another rule (the rule's closing look-up reads the DOCUMENT error tree with a SCHEMA path)
+    import copy
+    import cerberus
+    for i in range(20 if ctx["tier"] != "thorough" else 200):
+        later = rng.choice([('minlength', 5), ('maxlength', 0), ('allowed', [{'x': 1}])])
+        sub = {'a': {'type': 'dict', 'schema': {'dependencies': {'type': 'integer'}}, 'dependencies': ['b'], later[0]: later[1]}, 'b': {}}
+        doc = {'a': {'dependencies': rng.choice(['x', None, [1]])}, 'b': 1}
+        wrap = rng.choice(['dict', 'list'])
+        outer = {'f': {'type': 'dict', 'schema': sub}} if wrap == 'dict' else {'f': {'type': 'list', 'schema': {'type': 'dict', 'schema': sub}}}
+        odoc = {'f': doc} if wrap == 'dict' else {'f': [doc]}
+        alone = cerberus.Validator(copy.deepcopy(sub))
+        alone.validate(copy.deepcopy(doc), normalize=False)
+        nested = cerberus.Validator(copy.deepcopy(outer))
+        nested.validate(copy.deepcopy(odoc), normalize=False)
+
+        def leaves(errs, strip):
+            out = []
+            for e in errs:
+                if e.child_errors and not e.is_logic_error and e.code in (0x81, 0x82):
+                    out.extend(leaves(e.child_errors, strip))
+                else:
+                    out.append((tuple(e.document_path)[strip:], e.code))
+            return sorted(out, key=repr)
+        a = leaves(alone._errors, 0)
+        b = [x for x in leaves(nested._errors, 1 if wrap == 'dict' else 2)]
+        res["cases"] += 1
+        res["nontrivial"] += 1
+        if a != b:
+            res["violations"].append({"signature": "standalone:dependencies-look-up",
+                                      "what": "sub-document with a key named 'dependencies': validated alone %r, nested %r" % (a, b),
+                                      "replay": {"schema": common.jval(outer), "document": common.jval(odoc), "config": {"d": []}, "update": False}})
 
 
 def run(ctx):
